@@ -3345,7 +3345,9 @@ func (b *SystemBackend) responseWrappingUnwrap(ctx context.Context, te *logical.
 			return "", fmt.Errorf("error decrementing wrapping token's use-count: %w", err)
 		}
 
-		defer b.Core.tokenStore.revokeOrphan(ctx, tokenID)
+		// The token's only use is spent: it has to be revoked whether or
+		// not the client is still there to receive the response.
+		defer b.Core.tokenStore.revokeOrphan(context.WithoutCancel(ctx), tokenID)
 	}
 
 	cubbyReq := &logical.Request{
@@ -3670,7 +3672,9 @@ func (b *SystemBackend) handleWrappingRewrap(ctx context.Context, req *logical.R
 		if err != nil {
 			return nil, fmt.Errorf("error decrementing wrapping token's use-count: %w", err)
 		}
-		defer b.Core.tokenStore.revokeOrphan(ctx, te.ID)
+		// As for unwrapping: revoke the spent token even if the request's
+		// context ends meanwhile.
+		defer b.Core.tokenStore.revokeOrphan(context.WithoutCancel(ctx), te.ID)
 	}
 
 	// Fetch the original TTL
